@@ -541,6 +541,9 @@ impl Scanner {
                         return self.error_token("Max interpolation depth exceeded.");
                     }
                     self.parantheses.push(1);
+                    if let Some(msg) = error {
+                        return self.error_token(msg);
+                    }
                     return Token {
                         line: self.line,
                         source: buffer,
